@@ -116,7 +116,10 @@ func VerifC11_Sale() {
 	a := MsgLightNodeSaleClaim{EventNonce: 7, EthBlockHeight: 100, Orchestrator: "paloma1orch", ChainReferenceId: "test-chain",
 		SkywayNonce: 7, ClientAddress: "paloma1client", Amount: sdkmath.NewInt(5), SmartContractAddress: c11Token, CompassId: "compass-1"}
 	b := a
-	switch sym.Choice("field", 6) {
+	switch sym.Choice("field", 7) {
+	case 6: // the same contract spelled differently (the sale handler compares the configured contract byte for byte)
+		a.SmartContractAddress, b.SmartContractAddress = "0xAbCdEf1111111111111111111111111111111111", "0xabcdef1111111111111111111111111111111111"
+		c11Check(c11Key("test-chain", &a), c11Key("test-chain", &b), "sale-key-depends-on-contract-spelling")
 	case 0:
 		a.SkywayNonce, b.SkywayNonce = sym.Uint64("x"), sym.Uint64("y")
 		sym.Assume(a.SkywayNonce != b.SkywayNonce)
